@@ -130,6 +130,41 @@ static bool seed_ok(vf::Ctx& ctx, unsigned long seed, int ndraw)
     return true;
 }
 
+// The stream of ONE generator object is the Park-Miller stream of its seed however the draws are grouped into calls: random(), random_vec(Vector&) and
+// random_vec(Index) of lengths 0..9 (odd and even) mixed on the same object, real and complex.
+template <class T>
+static bool grouping_ok(vf::Ctx& ctx, unsigned long seed, unsigned pattern)
+{
+    using R = typename Eigen::NumTraits<T>::Real;
+    constexpr int per = Eigen::NumTraits<T>::IsComplex ? 2 : 1;
+    Spectra::SimpleRandom<T> rng(seed);
+    uint64_t st = seed ? (seed & M) : 1;
+    std::vector<R> got;
+    auto push = [&](const T& v) { const R* p = reinterpret_cast<const R*>(&v); for (int q = 0; q < per; q++) got.push_back(p[q]); };
+    unsigned x = pattern * 2654435761u + 12345u;
+    for (int call = 0; call < 7; call++)
+    {
+        x = x * 1664525u + 1013904223u;
+        const int kind = (int) ((x >> 28) % 3), len = (int) ((x >> 20) % 10);
+        if (kind == 0) push(rng.random());
+        else if (kind == 1) { Eigen::Matrix<T, Eigen::Dynamic, 1> v(len); rng.random_vec(v); for (int i = 0; i < len; i++) push(v[i]); }
+        else { Eigen::Matrix<T, Eigen::Dynamic, 1> v = rng.random_vec(len); for (int i = 0; i < len; i++) push(v[i]); }
+    }
+    for (size_t d = 0; d < got.size(); d++)
+    {
+        st = ref_next(st);
+        const R want = R((long) st) / R(2147483647UL) - R(0.5);
+        if (std::abs(got[d] - want) > R(4) * std::numeric_limits<R>::epsilon())
+        {
+            ctx.violation(std::string("seed/stream-depends-on-call-grouping/") + (per == 2 ? "complex<" : "") + tn<R>() + (per == 2 ? ">" : ""),
+                          vf::J().kv("seed", seed).kv("pattern", (long) pattern).kv("position_in_stream", (long) d).kv("got", (long double) got[d]).kv("want", (long double) want).str());
+            return false;
+        }
+    }
+    ctx.count("call_grouping_patterns");
+    return true;
+}
+
 static void seeds(vf::Ctx& ctx, long chunk, long j)
 {
     const long per = (1L << 20) / NSEEDCH;
@@ -154,6 +189,9 @@ static void seeds(vf::Ctx& ctx, long chunk, long j)
                     ctx.violation("seed/complex-vector", vf::J().kv("seed", seed).kv("k", k).str());
                     break;
                 }
+            const unsigned pat = (unsigned) (i >> 4);
+            if (!grouping_ok<double>(ctx, seed, pat) || !grouping_ok<float>(ctx, seed, pat + 1) || !grouping_ok<long double>(ctx, seed, pat + 2) ||
+                !grouping_ok<std::complex<double>>(ctx, seed, pat + 3) || !grouping_ok<std::complex<float>>(ctx, seed, pat + 4)) break;
         }
         n++;
     }
